@@ -1,6 +1,7 @@
 //! E1 `seqx`: sequential bounded-exhaustive enumeration of amiquip's components, driven
 //! directly on this thread through the public API or `cfg(amiquip_verif)` probes.
 mod api;
+mod dispatch;
 mod framebuf;
 mod publish;
 mod slots;
@@ -62,6 +63,11 @@ fn main() {
         "smoother" => smoother::run(&args),
         "slots" => slots::run(&args),
         "tune" => tune::run(&args),
+        "dispatch-content" => dispatch::run_content(&args),
+        "dispatch-violations" => dispatch::run_violations(&args),
+        "dispatch-lifecycle" => dispatch::run_lifecycle(&args),
+        "dispatch-listeners" => dispatch::run_listeners(&args),
+        "dispatch-huge-child" => dispatch::huge_child(&args.rest[0]),
         "startok" => startok::run(&args),
         "api" => api::run(&args),
         "publish" => publish::run(&args),
@@ -78,6 +84,7 @@ fn main() {
                 "smoother" => smoother::replay(&v),
                 "slots" => slots::replay(&v),
                 "tune" => tune::replay(&v),
+                "dispatch" => dispatch::replay(&v),
                 "startok" => startok::replay(&v),
                 "api" => api::replay(&v),
                 "publish" => publish::replay(&v),
